@@ -169,6 +169,22 @@ def gen_float_mesh(rng):
     p1 = [off * e + rng.uniform(-1, 1) * e for e in edge]
     p2 = [a + e for a, e in zip(p1, edge)]
     dims = rng.sample(NAMES, ndim) if rng.random() < 0.5 else None
+    r = rng.random()
+    if r < 0.25 and ndim >= 2:
+        # anisotropic: every axis at its own decade (edge of one axis up to 1e8 x the smallest cell of another), cell
+        # counts 3 and 7 (non-representable quotients); the reduced meshes of integrate/mean keep such axes
+        edge = [e * 10.0 ** rng.randint(0, 7) for e in edge]
+        n = [rng.choice([k, 3, 7]) for k in n]
+        while int(np.prod(n)) > 150:
+            n[rng.randrange(ndim)] = 1
+        p1 = [rng.choice([0.0, rng.uniform(-1, 1) * e]) for e in edge]
+        p2 = [a + e for a, e in zip(p1, edge)]
+    elif r < 0.4 and ndim >= 2:
+        # corner points given as Python ints, the product of the edge lengths above 2**63
+        lim = {2: 10 ** 10, 3: 5 * 10 ** 6, 4: 2 * 10 ** 5}[ndim]
+        ie = [k * rng.randint(lim // 50, lim) for k in n]
+        p1 = [rng.randint(-lim, lim) for _ in range(ndim)]
+        p2 = [a + e for a, e in zip(p1, ie)]
     return dict(p1=p1, p2=p2, n=n, dims=dims, units=None, bc="", subs=[])
 
 
